@@ -117,6 +117,11 @@ pub fn threads(_preemption_bound: u32) {}
 #[inline(never)]
 pub fn unordered(_on: bool) {}
 
+/// Bound on the number of hash-container iterations per run whose order deviates from insertion order
+/// (mirsym explores every placement of that many deviations; no effect natively, where std picks the order).
+#[inline(never)]
+pub fn order_deviations(_k: u32) {}
+
 #[inline(never)]
 pub fn assume(c: bool) {
     if !c {
